@@ -30,8 +30,13 @@ var allSpecs = []HarnessSpec{
 	{Prop: "C05", Func: "ZZ_H_Instances", POR: true, Replay: "native", Twin: true, Params: map[string]int{"steps": 3, "__coarse": 1}},
 	{Prop: "C04", Func: "ZZ_H_Instances", POR: true, Replay: "native", Params: map[string]int{"steps": 3, "__coarse": 1}},
 	{Prop: "C05", Func: "ZZ_H_History", Tag: "prop=5", POR: true, Replay: "native", Twin: true, Params: map[string]int{"prop": 5, "steps": 2, "__coarse": 1}, TParams: map[string]int{"steps": 3, "slim": 1}},
+	{Prop: "C04", Func: "ZZ_H_History", Tag: "prop=4,two-generates", POR: true, Replay: "native", Params: map[string]int{"prop": 4, "steps": 2, "slim": 1, "gen_history": 1, "__coarse": 1}},
+	{Prop: "C05", Func: "ZZ_H_History", Tag: "prop=5,two-generates", POR: true, Replay: "native", Params: map[string]int{"prop": 5, "steps": 2, "slim": 1, "gen_history": 1, "__coarse": 1}},
+	{Prop: "C04", Func: "ZZ_H_History", Tag: "prop=4,query-between-runs", POR: true, Replay: "native", Params: map[string]int{"prop": 4, "steps": 3, "slim": 1, "query_history": 1, "__coarse": 1}},
+	{Prop: "C05", Func: "ZZ_H_History", Tag: "prop=5,query-between-runs", POR: true, Replay: "native", Params: map[string]int{"prop": 5, "steps": 3, "slim": 1, "query_history": 1, "__coarse": 1}},
 	{Prop: "C05", Func: "ZZ_H_History", Tag: "prop=5,with-status", POR: true, Replay: "native", Params: map[string]int{"prop": 5, "steps": 2, "slim": 1, "status_history": 1, "__coarse": 1}},
 	{Prop: "C12", Func: "ZZ_H_History", Tag: "prop=12", POR: true, Replay: "native", Twin: true, Params: map[string]int{"prop": 12, "steps": 2, "__coarse": 1}, TParams: map[string]int{"steps": 3, "slim": 1}},
+	{Prop: "C03", Func: "ZZ_C03_FailStop", Tag: "shape=7", POR: true, Replay: "native", Params: map[string]int{"shape": 7, "__coarse": 1}},
 	{Prop: "C03", Func: "ZZ_C03_FailStop", Tag: "shape=6", POR: true, Replay: "native", Params: map[string]int{"shape": 6, "failing": 2, "__coarse": 1}},
 	{Prop: "C03", Func: "ZZ_C03_FailStop", Tag: "shape=5", POR: true, Replay: "native", Params: map[string]int{"shape": 5, "__coarse": 1}},
 	{Prop: "C03", Func: "ZZ_C03_FailStop", Tag: "shape=4", POR: true, Replay: "native", Params: map[string]int{"shape": 4, "failing": 1, "__coarse": 1}},
@@ -39,6 +44,7 @@ var allSpecs = []HarnessSpec{
 	{Prop: "C06", Func: "ZZ_C01_Deps", Tag: "shape=6", POR: true, Replay: "native", Params: map[string]int{"shape": 6, "maxconc": 0, "failing": 2, "__coarse": 1}},
 	{Prop: "C06", Func: "ZZ_C06_DistinctOnce", POR: true, Replay: "native", Twin: true, Params: map[string]int{"__coarse": 1}},
 	{Prop: "C02", Func: "ZZ_C11_Deferred", Replay: "native"},
+	{Prop: "C14", Func: "ZZ_C11_Deferred", Replay: "native"},
 	{Prop: "C06", Func: "ZZ_C06_RunModes", POR: true, Replay: "native", Twin: true, Params: map[string]int{"failing": 1, "__coarse": 1}, TParams: map[string]int{"failing": 2}},
 	{Prop: "C07", Func: "ZZ_C07_Concurrency", Tag: "shape=1", POR: true, Replay: "native", Twin: true, MustReach: []string{"independent-deps-overlap"}, Params: map[string]int{"shape": 1, "maxconc": 2, "__coarse": 1}},
 	{Prop: "C07", Func: "ZZ_C07_Concurrency", Tag: "shape=2", POR: true, Replay: "native", Params: map[string]int{"shape": 2, "maxconc": 2, "__coarse": 1}},
@@ -56,6 +62,11 @@ var allSpecs = []HarnessSpec{
 	{Prop: "C09", Pkg: "taskfile/ast", Func: "ZZ_C09_Merge", Tag: "siblings", POR: true, Replay: "native", Twin: true, Params: map[string]int{"diamond": 0, "__maporder": 1, "__coarse": 1}},
 	{Prop: "C09", Pkg: "taskfile/ast", Func: "ZZ_C09_Merge", Tag: "diamond", POR: true, Replay: "native", Params: map[string]int{"diamond": 1, "__maporder": 1, "__maporder_scope": 1, "__coarse": 1}},
 	{Prop: "C09", Pkg: "taskfile/ast", Func: "ZZ_C09_Merge", Tag: "deep-diamond", POR: true, Replay: "native", Params: map[string]int{"diamond": 1, "deep": 1, "__maporder": 1, "__maporder_scope": 1, "__coarse": 1}},
+	{Prop: "C09", Func: "ZZ_C09_Dotenv", Replay: "native", Twin: true, Params: map[string]int{"__maporder": 1, "__maporder_scope": 1}},
+	{Prop: "C08", Pkg: "taskfile", Func: "ZZ_C08_Reader", POR: true, Replay: "native", Twin: true, Params: map[string]int{"__coarse": 1}},
+	{Prop: "C10", Pkg: "taskfile", Func: "ZZ_C10_IncludeStatement", POR: true, Replay: "native", Twin: true, Params: map[string]int{"__coarse": 1}},
+	{Prop: "C09", Pkg: "taskfile", Func: "ZZ_C09_NodeResolve", Replay: "native", Twin: true},
+	{Prop: "C20", Pkg: "taskfile", Func: "ZZ_C20_HTTPNodeOffline", Replay: "native", Twin: true},
 	{Prop: "C09", Pkg: "taskfile", Func: "ZZ_C09_Reader", POR: true, Replay: "native", Twin: true, Params: map[string]int{"__coarse": 1}},
 	{Prop: "C10", Pkg: "", Func: "ZZ_C10_Vars", Replay: "native", Twin: true},
 	{Prop: "C10", Pkg: "", Func: "ZZ_C10_Env", Replay: "native", Twin: true},
@@ -65,6 +76,7 @@ var allSpecs = []HarnessSpec{
 	{Prop: "C16", Pkg: "taskfile/ast", Func: "ZZ_C16_Unmarshal", Replay: "native", Twin: true, Params: map[string]int{"depth": 0, "maxitems": 1}, TParams: map[string]int{"depth": 0, "maxitems": 2, "__maxpaths": 3000000}},
 	{Prop: "C16", Pkg: "taskfile/ast", Func: "ZZ_C16_Merge", Replay: "native", Twin: true},
 	{Prop: "C16", Func: "ZZ_C16_Compile", Replay: "native", Twin: true},
+	{Prop: "C16", Pkg: "internal/execext", Func: "ZZ_C16_Expand", Replay: "native", Twin: true},
 	{Prop: "C16", Pkg: "taskfile", Func: "ZZ_C16_GitNode", Replay: "native", Twin: true},
 	{Prop: "C16", Pkg: "taskfile", Func: "ZZ_C16_Snippet", Replay: "native", Twin: true},
 	{Prop: "C17", Func: "ZZ_C17_RunCommand", Replay: "native", Twin: true},
@@ -76,14 +88,15 @@ var allSpecs = []HarnessSpec{
 	{Prop: "C18", Func: "ZZ_C18_Kernel", Tag: "shape=1", POR: true, Replay: "native-race", Params: map[string]int{"shape": 1, "failing": 1, "__coarse": 1, "__race": 1}},
 	{Prop: "C18", Func: "ZZ_C18_Deferred", POR: true, Replay: "native-race", Params: map[string]int{"__coarse": 1, "__race": 1}},
 	{Prop: "C18", Func: "ZZ_C18_DynamicVars", POR: true, Replay: "native-race", Twin: true, Params: map[string]int{"__coarse": 1, "__race": 1}},
+	{Prop: "C18", Func: "ZZ_C18_Names", POR: true, Replay: "native-race", Twin: true, Params: map[string]int{"__coarse": 1, "__race": 1}},
 	{Prop: "C18", Func: "ZZ_C18_Compile", POR: true, Replay: "native-race", Twin: true, Params: map[string]int{"__coarse": 1, "__race": 1}},
 	{Prop: "C18", Pkg: "internal/output", Func: "ZZ_C17_Prefixed", Tag: "race", POR: true, Replay: "native-race", Params: map[string]int{"maxchunks": 1, "__coarse": 1, "__race": 1}},
 	{Prop: "C18", Pkg: "internal/output", Func: "ZZ_C17_Group", Tag: "race", POR: true, Replay: "native-race", Params: map[string]int{"maxchunks": 1, "__coarse": 1, "__race": 1}},
-	{Prop: "C19", Pkg: "args", Func: "ZZ_C19_Get", Replay: "native", Twin: true},
-	{Prop: "C19", Pkg: "args", Func: "ZZ_C19_Parse", Replay: "native", Twin: true},
+	{Prop: "C19", Pkg: "args", Func: "ZZ_C19_Get", Replay: "native", Twin: true, TParams: map[string]int{"arglen": 8, "maxpost": 4}},
+	{Prop: "C19", Pkg: "args", Func: "ZZ_C19_Parse", Replay: "native", Twin: true, TParams: map[string]int{"arglen": 8, "maxpost": 4}},
 	{Prop: "C19", Pkg: "args", Func: "ZZ_C19_Dialect", Replay: "native", Twin: true},
-	{Prop: "C19", Pkg: "args", Func: "ZZ_C19_Forward", Replay: "native", Twin: true, Params: map[string]int{"__tmplsym": 1}},
-	{Prop: "C19", Pkg: "cmd/task", Func: "ZZ_C19_CLI", Replay: "native", ReplayPkg: "args", ReplayFunc: "ZZ_C19_CLI_native", Twin: true, Params: map[string]int{"__tmplsym": 1}},
+	{Prop: "C19", Pkg: "args", Func: "ZZ_C19_Forward", Replay: "native", Twin: true, Params: map[string]int{"__tmplsym": 1}, TParams: map[string]int{"arglen": 8}},
+	{Prop: "C19", Pkg: "cmd/task", Func: "ZZ_C19_CLI", Replay: "native", ReplayPkg: "args", ReplayFunc: "ZZ_C19_CLI_native", Twin: true, Params: map[string]int{"__tmplsym": 1}, TParams: map[string]int{"arglen": 8}},
 	{Prop: "C19", Pkg: "cmd/task", Func: "ZZ_C19_Init", Replay: "native", ReplayPkg: "args", ReplayFunc: "ZZ_C19_Init_native", Twin: true},
 }
 
